@@ -527,7 +527,32 @@ func rewrite(pkg, path string, src []byte) ([]byte, bool) {
 
 	var buf bytes.Buffer
 	if err := format.Node(&buf, fset, file); err != nil {
-		die("print %s: %v", rel, err)
+		// The tree now mixes nodes that have source positions with generated ones that have
+		// none, which the printer cannot always lay out. Print it again without any position
+		// information (an empty file set) and without comments: purely structural layout.
+		buf.Reset()
+		file.Comments = nil
+		ast.Inspect(file, func(n ast.Node) bool {
+			switch v := n.(type) {
+			case *ast.FuncDecl:
+				v.Doc = nil
+			case *ast.GenDecl:
+				v.Doc = nil
+			case *ast.Field:
+				v.Doc, v.Comment = nil, nil
+			case *ast.ValueSpec:
+				v.Doc, v.Comment = nil, nil
+			case *ast.TypeSpec:
+				v.Doc, v.Comment = nil, nil
+			case *ast.ImportSpec:
+				v.Doc, v.Comment = nil, nil
+			}
+			return true
+		})
+		if err2 := format.Node(&buf, token.NewFileSet(), file); err2 != nil {
+			die("print %s: %v (and without positions: %v)", rel, err, err2)
+		}
+		rep.Rewritten = append(rep.Rewritten, rel+": printed without source positions")
 	}
 	return buf.Bytes(), true
 }
